@@ -106,7 +106,7 @@ PROPS = {
             {'harness': 'push_number_all_i64', 'validates': 'assumed contract of ScriptStack::push_number (minimal script number of every in-range i64)'},
             {'harness': 'pop_number_all_short_elements', 'validates': 'assumed contract of ScriptStack::pop_number (sign-magnitude decoding of every element of 0..=5 bytes)'},
             {'harness': 'push_bool_both', 'quick': False, 'validates': 'push_bool: true -> 01, false -> empty (also proved by Verus)'},
-            {'harness': 'pop_bool_elements_up_to_6_bytes', 'quick': False, 'bound': 'elements of at most 6 bytes', 'validates': 'bounded cross-check of pop_bool truthiness (the unbounded proof is the Verus obligation on pop_bool)'},
+            {'harness': 'pop_bool_elements_up_to_6_bytes', 'bound': 'elements of at most 6 bytes', 'validates': 'bounded cross-check of pop_bool truthiness (the unbounded proof is the Verus obligation on pop_bool)'},
         ],
         'assumptions': ['num-bigint computes mathematical integer arithmetic; to_bytes_le / from_bytes_le are characterised by le_val / mag_le with the axioms axiom_mag_le, axiom_mag_le_unique; division truncates toward zero, the remainder takes the sign of the dividend', SHA,
                         'implementation limit encoded in the specification: operands read with the 4-byte number reader (PICK / ROLL index, SPLIT position, NOT, 0NOTEQUAL) fail when longer than 4 bytes',
@@ -121,7 +121,8 @@ PROPS = {
             'interp': ['Interpreter::match_opcode#OP_CODESEPARATOR*', 'Interpreter::match_opcode#OP_CHECKSIG*', 'Interpreter::match_opcode#OP_CHECKMULTISIG*'],
             'ecdsa_glue': ['ECDSA::verify_hashbuf_impl'],
             'signature_glue': ['SighashSignature::from_bytes_impl'],
-            'sighash_legacy': ['Transaction::sighash_preimage_impl'],
+            'sighash_legacy': ['Transaction::sighash_preimage_impl', 'Transaction::sighash_legacy'],
+            'sighash_forkid': ['Transaction::sighash_bip143'],
         },
         'rlimit': 40,
         'assumptions': ['ECDSA verification, SEC1 point decoding, DER decoding and SHA-256 are uninterpreted functions (k256 / sha2 assumed): "valid ECDSA signature by the key over the digest" is ecdsa_verify(sec1_point(key), reduce_be(sha256d(preimage)), der_dec(sig)) by definition', SHA,
